@@ -936,16 +936,23 @@ where
 
     /// Insert and get node ID
     pub fn insert_and_get_node_id(&mut self, key: &[u8]) -> Result<StateId> {
+        // Only a new key changes the key count (as in `Trie::insert`)
+        let already_exists = self.contains(key);
+
         match &mut self.storage {
             TrieStorage::Patricia { nodes, edge_data, compressed_paths } => {
                 let node_id = Self::insert_patricia_actual(nodes, edge_data, compressed_paths, key)?;
-                self.stats.num_keys += 1;
+                if !already_exists {
+                    self.stats.num_keys += 1;
+                }
                 Ok(node_id)
             }
             TrieStorage::Louds { louds, is_link, next_link, label_data, core_data, next_trie } => {
                 // Delegate to the LOUDS-specific insert implementation
                 let node_id = Self::insert_louds(louds, is_link, next_link, label_data, core_data, next_trie, key)?;
-                self.stats.num_keys += 1;
+                if !already_exists {
+                    self.stats.num_keys += 1;
+                }
                 Ok(node_id)
             }
             _ => {
